@@ -8,6 +8,7 @@ import (
 	"sort"
 	"strings"
 
+	"golang.org/x/tools/go/packages"
 	"golang.org/x/tools/go/types/typeutil"
 )
 
@@ -77,11 +78,78 @@ func (c *Ctx) nodeFlatRule(fname string) {
 		}
 	}
 	var sw *ast.SwitchStmt
-	for _, s := range findSwitches(lit.Body) {
-		if ce, ok := s.Tag.(*ast.CallExpr); ok {
+	litDefs := singleDefs(d.pkg, lit.Body)
+	isFullName := func(e ast.Expr) bool {
+		if e == nil {
+			return false
+		}
+		e = chase(d.pkg, litDefs, e)
+		if ce, ok := e.(*ast.CallExpr); ok {
 			if sel, ok := ce.Fun.(*ast.SelectorExpr); ok && sel.Sel.Name == "FullName" && objOf(d.pkg, sel.X) == fdObj {
-				sw = s
-				break
+				return true
+			}
+		}
+		return false
+	}
+	for _, s := range findSwitches(lit.Body) {
+		if isFullName(s.Tag) {
+			sw = s
+			break
+		}
+	}
+	// clauses that live in a helper of the encoder which is handed the field name:
+	// if date, ok := n.flatStringDate(name); ok { … }
+	type helperClause struct {
+		cl   *ast.CaseClause
+		pkg  *packages.Package
+		recv types.Object
+	}
+	helperCases := map[string]helperClause{}
+	for _, cs := range callsIn(d.pkg, lit.Body) {
+		if cs.callee.Pkg() == nil || !strings.HasPrefix(cs.callee.Pkg().Path(), modPath+"/") {
+			continue
+		}
+		argIdx := -1
+		for i, a := range cs.call.Args {
+			if isFullName(a) {
+				argIdx = i
+			}
+		}
+		sel, isSel := cs.call.Fun.(*ast.SelectorExpr)
+		if argIdx < 0 || !isSel || objOf(d.pkg, sel.X) != recv {
+			continue
+		}
+		hfd, hpk := c.P.FuncDecl(objName(cs.callee))
+		if hfd == nil || hfd.Body == nil || hfd.Recv == nil || len(hfd.Recv.List) != 1 || len(hfd.Recv.List[0].Names) != 1 {
+			continue
+		}
+		hrecv := hpk.TypesInfo.Defs[hfd.Recv.List[0].Names[0]]
+		var hparam types.Object
+		k := 0
+		for _, fl := range hfd.Type.Params.List {
+			for _, nm := range fl.Names {
+				if k == argIdx {
+					hparam = hpk.TypesInfo.Defs[nm]
+				}
+				k++
+			}
+		}
+		for _, hs := range findSwitches(hfd.Body) {
+			if hs.Tag == nil || hparam == nil || objOfInfo(hpk, hs.Tag) != hparam {
+				continue
+			}
+			for _, cc := range hs.Body.List {
+				cl := cc.(*ast.CaseClause)
+				for _, e := range cl.List {
+					if v, ok := constOf(hpk, e); ok && v.isStr() {
+						label := v.str()
+						if i := strings.LastIndex(label, "."); i >= 0 {
+							if goName, known := names[label[i+1:]]; known && strings.HasSuffix(label[:i], ".Node") {
+								helperCases[goName] = helperClause{cl, hpk, hrecv}
+							}
+						}
+					}
+				}
 			}
 		}
 	}
@@ -147,6 +215,14 @@ func (c *Ctx) nodeFlatRule(fname string) {
 		name := f.Name()
 		construct := fname + "#" + name
 		kind := fieldKind(f.Type())
+		if hc, ok := helperCases[name]; ok {
+			if _, dup := explicit[name]; !dup {
+				m := mentions(hc.pkg, &ast.BlockStmt{List: hc.cl.Body}, hc.recv)
+				c.check(m[name], R, construct, c.P.Pos(hc.cl.Pos()), "explicit case (in a helper handed the field name) reads "+name,
+					fmt.Sprintf("the helper's case for %s does not read that field", name))
+				continue
+			}
+		}
 		if cl, ok := explicit[name]; ok {
 			body := &ast.BlockStmt{List: cl.Body}
 			m := mentions(d.pkg, body, recv)
